@@ -1,5 +1,6 @@
 import MicroHttp.Props.C15
 import MicroHttp.Props.C15Fold
+import MicroHttp.Props.Tables
 #print axioms MicroHttp.C15.name_case_insensitive
 #print axioms MicroHttp.C15.name_recognised
 #print axioms MicroHttp.C15.trim_padding
@@ -23,3 +24,6 @@ import MicroHttp.Props.C15Fold
 #print axioms MicroHttp.C15.chunked_any
 #print axioms MicroHttp.C15.custom_last_wins
 #print axioms MicroHttp.C15.untouched_fields
+#print axioms MicroHttp.Tables.header_raw
+#print axioms MicroHttp.Tables.header_tryFrom
+#print axioms MicroHttp.Tables.media_tryFrom
